@@ -49,6 +49,20 @@ func (m Map) validate() error {
 				errs = append(errs, errorx.Invalid("Chord %s Extends %s not found", c.Name, x))
 			}
 		}
+		// extends should not be cyclic
+		seen := map[string]bool{c.Name: true}
+		for x := c.Extends; x != ""; {
+			p, ok := m.chords[x]
+			if !ok {
+				break
+			}
+			if seen[p.Name] {
+				errs = append(errs, errorx.Invalid("Chord %s Extends cyclic", c.Name))
+				break
+			}
+			seen[p.Name] = true
+			x = p.Extends
+		}
 	}
 
 	return errors.Join(errs...)
